@@ -81,9 +81,6 @@ SStep(op, r, s) ==
       (* a fallible modification producing `text`: assign replaces, append extends; on a reported error the   *)
       (* contents are unspecified (the model follows the projection, structural invariants still apply)       *)
       Mod(texts) == IF ~Ok(r) THEN str' = Set(act)
-                    ELSE IF asg /\ texts = {<<>>} /\ m # <<>> /\ act = m
-                            /\ KnownFinding("C18K_string_assign_empty_is_noop")
-                         THEN str' = str
                     ELSE LET res(t) == IF asg THEN t ELSE m \o t IN        \* deterministic: one successor state
                          IF \E t \in texts : res(t) = act THEN str' = Set(act)
                          ELSE str' = Set(res(CHOOSE t \in texts : TRUE))
@@ -106,6 +103,7 @@ SStep(op, r, s) ==
        [] op[1] = "move" -> str' = [str EXCEPT ![i] = str[3 - i], ![3 - i] = <<>>]
        [] op[1] = "assign_str" -> str' = IF Ok(r) THEN Set(str[a + 1]) ELSE Set(act)
        [] op[1] = "append_str" -> str' = IF Ok(r) THEN Set(m \o str[a + 1]) ELSE Set(act)
+       [] op[1] = "assign_sub" -> a + b <= Len(m) /\ str' = IF Ok(r) THEN Set(SubSeq(m, a + 1, a + b)) ELSE Set(act)
        [] op[1] \in {"eq", "eq_cstr"} -> str' = str /\ r[1] = (IF m = bytes THEN 1 ELSE 0)
        [] op[1] = "eq_str" -> str' = str /\ r[1] = (IF m = str[a + 1] THEN 1 ELSE 0)
        [] op[1] = "astr" -> /\ str' = str                                  \* ArenaString<N>::set_data (stateless)
